@@ -158,7 +158,18 @@ type nmView struct {
 	PoolKeys int // number of stored PEER_POOL records (all views)
 }
 
+var canonCache sync.Map
+
 func canonOfBytes(b []byte) string {
+	if v, ok := canonCache.Load(string(b)); ok {
+		return v.(string)
+	}
+	c := canonOfBytesSlow(b)
+	canonCache.Store(string(b), c)
+	return c
+}
+
+func canonOfBytesSlow(b []byte) string {
 	pk, err := keypair.DeserializePublicKey(b)
 	if err != nil {
 		return "!bad:" + hex.EncodeToString(b)
